@@ -163,7 +163,9 @@ def register(g):
                  ('debug_assert', r'\bdebug_assert(?:_eq|_ne)?!\('), ('unreachable', r'\b(?:unreachable|unimplemented|todo)!\('),
                  # implicit panics: calls that panic outside the value's range / off a char boundary, indexing and range slicing
                  ('split', r'\.(?:split_at|split_at_mut|split_off|swap_remove|copy_from_slice|splice|drain)\('),
-                 ('index', r'(?<=[\w\)\]])\[(?!\s*\])[^\[\]\n]*\]')]
+                 ('index', r'(?<=[\w\)\]])\[(?!\s*\])[^\[\]\n]*\]'),
+                 # arithmetic that panics on overflow in builds with overflow checks: compound assignments (sums of lengths, counters)
+                 ('arith', r'(?<![=!<>+\-*/&|^%])(?:\+=|-=|\*=)')]
         inv = collections.Counter(); first_site = {}
         for f in files:
             try:
@@ -200,10 +202,17 @@ def register(g):
         ed = fn_body(doer, 'entry_details_from_metadata') or ''
         pre = _re.search(r'if\s+modified_time\s*<\s*(?:std::time::)?(?:SystemTime::)?UNIX_EPOCH\s*\{\s*return\s+Err', ed) is not None
         if not pre: status['pre-epoch-guard'] = 'not recognised'
+        # sums of file lengths (statistics, progress): saturating, so that lengths adding up to more than 2^64 cannot overflow (C18-F11)
+        bp = strip_comments(read('src/boss_progress.rs')); bs = strip_comments(read('src/boss_sync.rs'))
+        aa = fn_body(bp, 'add_assign') or ''
+        sat = all(_re.search(r'self\.%s\s*=\s*self\.%s\.saturating_add\(\s*rhs\.%s\s*\)' % (f_, f_, f_), aa) for f_ in ('work', 'copy_bytes'))
+        sat = sat and all(_re.search(r'ctx\.stats\.%s\s*=\s*ctx\.stats\.%s\.saturating_add\(' % (f_, f_), bs) and not _re.search(r'ctx\.stats\.%s\s*\+=' % f_, bs)
+                          for f_ in ('src_total_bytes', 'dest_total_bytes', 'num_bytes_deleted', 'num_bytes_copied'))
+        if not sat: status['byte-sums-saturate'] = 'not recognised'
         lines = ['namespace Rj.Generated', 'structure PanicGroup where', '  file : String', '  fn : String', '  kind : String', '  count : Nat', '  classified : Bool', '  deriving DecidableEq, Repr',
                  'def panicGroups : List PanicGroup := [',
                  ',\n'.join(f'  ⟨{lean_str(k[0])}, {lean_str(k[1])}, {lean_str(k[2])}, {v}, {"true" if ok else "false"}⟩' for k, v, ok in rows), ']',
-                 f'def preEpochRejected : Bool := {"true" if pre else "false"}', 'end Rj.Generated']
+                 f'def preEpochRejected : Bool := {"true" if pre else "false"}', f'def byteSumsSaturate : Bool := {"true" if sat else "false"}', 'end Rj.Generated']
         write('PanicSites.lean', '\n'.join(lines) + '\n')
 
     def walker():
